@@ -783,16 +783,24 @@ static int myth_handle_PTHREAD_MUTEX_INITIALIZER(pthread_mutex_t * pm) {
   myth_mutex_t * m = (myth_mutex_t *)pm;
   volatile int * magic_p = (volatile int *)&m->magic;
   int magic = * magic_p;
+  MYTH_VERIF_POINT(MYTH_VP_SINIT_READ, m, 0, magic);
   if (magic != myth_mutex_magic_no) {
     if (magic != myth_mutex_magic_no_initializing
 	&& __sync_bool_compare_and_swap(magic_p, magic, myth_mutex_magic_no_initializing)) {
+      MYTH_VERIF_POINT(MYTH_VP_SINIT_CAS, m, 0, 1);
       myth_mutex_t mi = MYTH_MUTEX_INITIALIZER;
       mi.magic = myth_mutex_magic_no_initializing;
       *m = mi;
       myth_rwbarrier();
+      MYTH_VERIF_POINT(MYTH_VP_SINIT_COPY, m, 0, m->state);
       *magic_p = myth_mutex_magic_no;
+      MYTH_VERIF_POINT(MYTH_VP_SINIT_DONE, m, 0, 0);
     } else {
-      while (*magic_p == myth_mutex_magic_no_initializing) { }
+      MYTH_VERIF_POINT(MYTH_VP_SINIT_CAS, m, 0, (magic == myth_mutex_magic_no_initializing ? -1 : 0));
+      while (*magic_p == myth_mutex_magic_no_initializing) {
+        MYTH_VERIF_SPIN(MYTH_VP_SINIT_WAIT, m);
+      }
+      MYTH_VERIF_POINT(MYTH_VP_SINIT_WAITED, m, 0, *magic_p);
       myth_assert(*magic_p == myth_mutex_magic_no);
     }
   }
